@@ -33,7 +33,9 @@ const retAddressArrayConst = 3
 
 func updateChar(pj *internalParsedJson, idx_in uint64) (done bool, idx uint64) {
 	if pj.indexesChan.index >= pj.indexesChan.length {
+		verifIdx(pj, "RecvBegin", &pj.indexesChan, 0)
 		pj.indexesChan = <-pj.indexChans // Get next element from channel
+		verifIdx(pj, "Recvd", &pj.indexesChan, 0)
 		done = pj.indexesChan.index == -1
 		if done {
 			return
